@@ -26,11 +26,13 @@ TRUSTED = ["CPython", "Hypothesis", "vf/genir.py", "vf/irround.py (structural co
 REGISTER = True
 TECHNIQUE = "round-trip: to_json -> from_json, field-by-field structural comparison on Hypothesis-generated and C front-end modules"
 LEVEL_TEXT = (
-    "Exploration: about two thousand (quick) generated and front-end produced modules per run are serialised with to_json and "
+    "Exploration: about a thousand (quick) to tens of thousands (thorough) generated and front-end produced modules per run are serialised with to_json and "
     "rebuilt with from_json; an independent structural dump of both modules (every field the statement names, operands resolved "
     "to their defining objects) must be equal. Serialiser and deserialiser are deterministic functions of the module, so "
     "generated-input search with an exact oracle is the fitting level; no bound is closed."
 )
+
+SHRINK_CASES = 250  # cases a worker may spend on shrinking one failure
 
 FINDING_OF = {
     "init": "C16-KF1",
@@ -115,13 +117,17 @@ def active_exclusions():
 
 
 def _worker(arg):
-    from ppci import ir
-
-    seed, n, exclude = arg
+    seed, n, exclude, big = arg
     stats = Stats()
 
+    cap = irround.ShrinkCap(SHRINK_CASES)
+
     def prop(case):
+        if cap.exhausted():
+            return None
         msg, m = run_case(case)
+        if msg is not None and classify(case, msg) is None:
+            cap.failure_seen()
         feats = irround.module_features(m)
         classes = irround.instruction_classes(m)
         nt = bool(feats & {"init", "volatile", "fwd"}) or "Phi" in classes
@@ -137,12 +143,13 @@ def _worker(arg):
             stats.hist["ins:" + k] += c
         return msg
 
-    fails = hyp_search(irround.case_strategy(exclude, stats.excluded), prop, n, seed, stats, classify=classify)
+    fails = hyp_search(irround.case_strategy(exclude, stats.excluded, big=big), prop, n, seed, stats, classify=classify)
     return stats, fails
 
 
 def run(ctx):
     exclude = active_exclusions()
     ctx.extra["excluded_features"] = dict(exclude)
-    n = ctx.scale(1600, 100000)
-    ctx.pmap(_worker, [(subseed(ctx.seed, PID, w), n // 16, exclude) for w in range(16)])
+    irround.warm_fragments()
+    n = ctx.scale(1120, 60000)
+    ctx.pmap(_worker, [(subseed(ctx.seed, PID, w), n // 16, exclude, not ctx.quick) for w in range(16)])
